@@ -2347,7 +2347,9 @@ public:
       bool skipThen = dynamic_cast<SkipStatement*>(stmt.getThenStmt().get());
       bool skipElse = dynamic_cast<SkipStatement*>(stmt.getElseStmt().get());
       if (skipThen && skipElse) {
-        // Do nothing.
+        // Nothing to choose between, but the condition must still be evaluated
+        // since it may call a function with side effects.
+        cb.genExpr(stmt.getCondition(), currentScope);
       } else if (skipElse) {
         // No else branch.
         auto endLabel = cb.getLabel();
